@@ -218,7 +218,8 @@ def compare_doc(rep, src, out, folder, top):
         for f in sec[4]:
             if f[0] == 'E' and not contains(ofonts, f):
                 only_content = part == u'content.xml' and not (S.styles_fonts is not None and contains(S.styles_fonts[4], f))
-                sig = dropped.get(part) or ('content-only-font-face' if only_content else
+                sig = dropped.get(part) or (dropped.get(u'styles.xml') if not only_content else None) or \
+                      ('nested-section-element' if ctx['nested'] else None) or ('content-only-font-face' if only_content else
                                             'subdocument-font-face-decls-dropped' if not top else 'font-face-lost')
                 rep.add(sig, '%s%s: font declaration %r not in the saved package' % (folder, part, L.attr(f, L.STYLENS, 'name')))
     # referenced automatic styles, each in its own part
@@ -229,6 +230,8 @@ def compare_doc(rep, src, out, folder, top):
                 nm = L.style_name(st)
                 if dropped.get(part):
                     sig = dropped[part]
+                elif ctx['nested']:
+                    sig = 'nested-section-element'
                 elif nm in ctx['collisions']:
                     sig = 'style-name-collision'
                 else:
